@@ -204,9 +204,9 @@ ScaleVec(v, s, L) == [q \in 1 .. L |-> s * v[q]]
 \* O(p * eps * |x|_1) for the largest prime factor p of the FFT length (FFTPACK's general-radix pass builds
 \* its twiddles by recurrences; measured: up to 16 n eps |output| for prime n, outputs up to 4 |x|_1), and
 \* the radix-2/4 routines document error accumulation in their successively multiplied twiddles.  The bound
-\* below leaves a factor of about 30 over the largest error measured on the unchanged library and is still
-\* ten orders of magnitude below the effect of an index, sign, scale, stride or aliasing error (O(|x|_1)).
-TolK(kind, n) == 2048 * n
+\* below leaves a factor of about 50 over the largest error measured on the unchanged library (n up to 10^4)
+\* and is still eight to ten orders of magnitude below the effect of an index, sign, scale, stride or aliasing error (O(|x|_1)).
+TolK(kind, n) == 8192 * n
 
 CaseA(kind, n, fam, sp) ==
     LET x == DenseOf(sp, InLen(kind, n), CplxIn(kind)) IN
